@@ -294,38 +294,55 @@ static void CmdRCuts(const Json& cmd, JsonOut& o) {
   o.key("runs");
   o.begin_arr();
   if (ops) {
-    Json item;
-    item.kind = Json::Obj;
+    Json fresh;
+    fresh.kind = Json::Obj;
+    // "populated": every cut is also read into a destination that already holds the complete value (decoded from the
+    // whole encoding just before): a reused message object, the usual way a receive loop is written
+    Json populated = fresh;
+    {
+      Json prior; prior.kind = Json::Obj;
+      Json kind; kind.kind = Json::Str; kind.s = "read";
+      Json bytes; bytes.kind = Json::Arr;
+      for (uint8_t b : src) { Json n; n.kind = Json::Num; n.n = b; bytes.a.push_back(n); }
+      prior.o.emplace_back("kind", kind);
+      prior.o.emplace_back("b", bytes);
+      populated.o.emplace_back("prior", prior);
+    }
+    const bool with_populated = cmd.has("populated") && src.size() <= 4096;
     for (auto& rkj : cmd.at("rks").a) {
       ReaderSpec base = ParseReaderKind(rkj);
-      o.begin_obj();
-      EmitRK(o, rkj);
-      o.key("cuts");
-      o.begin_arr();
-      for (size_t k = 0; k < src.size(); k++) {
-        // a bursty pipe needs a feeder thread per run: only short encodings are swept through it
-        if (base.kind == "fdburst" && src.size() > 24) break;
-        if (stride > 1 && k >= 80 && k + 80 < src.size() && (k % stride) != 0) continue;
-        ReaderSpec spec = base;
-        DynReader r(spec, src.data(), k);
-        r.log = false;
-        SetupHandles(cmd, r);
-        JsonOut tmp;
-        tmp.begin_obj();
-        ops->read(item, r, tmp);
-        tmp.end_obj();
-        // keep only the status (and any oob / unsupported marker)
-        Json parsed;
-        JsonParser(tmp.s).Parse(&parsed);
+      for (int pass = 0; pass < (with_populated && !base.bounded && (base.kind == "pedantic" || base.kind == "sstream") ? 2 : 1); pass++) {
+        const Json& item = pass ? populated : fresh;
         o.begin_obj();
-        o.kv_num("k", static_cast<long long>(k));
-        o.kv_num("st", parsed.at("st").num());
-        if (r.has_oob) o.kv_bool("oob", true);
-        if (r.unsupported) o.kv_bool("unsupported", true);
+        EmitRK(o, rkj);
+        if (pass) o.kv_bool("populated", true);
+        o.key("cuts");
+        o.begin_arr();
+        for (size_t k = 0; k < src.size(); k++) {
+          // a bursty pipe needs a feeder thread per run: only short encodings are swept through it
+          if (base.kind == "fdburst" && src.size() > 24) break;
+          if (stride > 1 && k >= 80 && k + 80 < src.size() && (k % stride) != 0) continue;
+          ReaderSpec spec = base;
+          DynReader r(spec, src.data(), k);
+          r.log = false;
+          SetupHandles(cmd, r);
+          JsonOut tmp;
+          tmp.begin_obj();
+          ops->read(item, r, tmp);
+          tmp.end_obj();
+          // keep only the status (and any oob / unsupported marker)
+          Json parsed;
+          JsonParser(tmp.s).Parse(&parsed);
+          o.begin_obj();
+          o.kv_num("k", static_cast<long long>(k));
+          o.kv_num("st", parsed.at("st").num());
+          if (r.has_oob) o.kv_bool("oob", true);
+          if (r.unsupported) o.kv_bool("unsupported", true);
+          o.end_obj();
+        }
+        o.end_arr();
         o.end_obj();
       }
-      o.end_arr();
-      o.end_obj();
     }
   }
   o.end_arr();
